@@ -52,6 +52,8 @@ theorem len_limit_le (b : Bool) : len_limit b ≤ 8966 := by
 
 theorem len_limit_false : len_limit false = 1460 := rfl
 
+theorem len_limit_true : len_limit true = 8966 := rfl
+
 theorem fits_iff (s l : Nat) : fits s l = true ↔ s ≤ l := by simp [fits]
 
 theorem rollback_drops_iff (idx start : Nat) : rollback_drops idx start = true ↔ start ≤ idx := by
